@@ -188,7 +188,7 @@ def _nxm_cases(tier, seed, allones):
       if issubclass(cls, nx._nxm_maskable) and issubclass(cls, nx._nxm_numeric):
         w = 8 * cls._nxm_length
         lim = 0x0fff if issubclass(cls, nx._nxm_tcp_flags) else (1 << w) - 1
-        masks += ([lim] if allones else [lim ^ ((1 << (w // 2)) - 1) & lim, 1])
+        masks += ([lim] if allones else [lim ^ ((1 << (w // 2)) - 1) & lim, 1, 0])   # 0: fully wildcarded, still an entry
       for m in masks:
         def t(cls=cls, v=v, m=m):
           if m is None:
